@@ -1,0 +1,14 @@
+//go:build verif
+
+package based
+
+// Verification hooks (build tag "verif"): read-only views used by /verif/harness/c20.
+
+// VerifC20PendingKey is the datastore key of the persisted carry-over queue.
+func VerifC20PendingKey() string { return dsPendingTxsKey }
+
+// VerifC20ScannedKey is the datastore key of the persisted scan position.
+func VerifC20ScannedKey() string { return dsLastScannedHeightKey }
+
+// VerifC20MemQueue returns the in-memory carry-over queue of the sequencer.
+func VerifC20MemQueue(s *Sequencer) []TxsWithTimestamp { return s.pendingTxs.list }
